@@ -48,16 +48,20 @@ type scopeEnv struct {
 	labels  []string
 	depth   int
 	noEval  bool
-	strict  bool // inside a class body: no `with`
+	strict  bool     // inside a class body: no `with`
 	fnBody  bool     // this block is the body of a function (not a nested block)
 	fnNames []string // function declarations of enclosing blocks of the same function: V8 and the specification
 	// disagree on whether a same-named function in a nested block is still hoisted (Annex B.3.3.1 says no)
 	catches []string // catch parameters of the enclosing function (see known finding c15-block-function-named-like-catch-parameter)
+	// let/const/class/for-let names of the ENCLOSING blocks of the same function: a function declaration of that
+	// name in a nested block is not hoisted (Annex B.3.3.1), which esbuild's output keeps only as long as the
+	// enclosing declaration keeps its name (known finding c15-pinned-block-function-enclosing-let-renamed)
+	lexicals []string
 }
 
 func (e scopeEnv) with(names ...string) scopeEnv {
 	v := append(append([]string{}, e.visible...), names...)
-	return scopeEnv{visible: v, inFn: e.inFn, labels: e.labels, depth: e.depth + 1, noEval: e.noEval, strict: e.strict, catches: e.catches, fnNames: e.fnNames}
+	return scopeEnv{visible: v, inFn: e.inFn, labels: e.labels, depth: e.depth + 1, noEval: e.noEval, strict: e.strict, catches: e.catches, fnNames: e.fnNames, lexicals: e.lexicals}
 }
 
 func (g *ScopeGen) name() string { return scopeNames[g.r.Intn(len(scopeNames))] }
@@ -104,6 +108,7 @@ func (g *ScopeGen) block(e scopeEnv, ind string, taken ...string) string {
 	// (documented "give up"), and the output formats cjs/iife are sloppy, where such a declaration is hoisted.
 	noBlockFn := g.Strict && !e.noEval && !isBody
 	env := e.with()
+	env.lexicals = append(append([]string{}, e.lexicals...), planned...)
 	{
 		vis := []string{}
 		for _, v := range env.visible {
@@ -169,6 +174,11 @@ func (g *ScopeGen) block(e scopeEnv, ind string, taken ...string) string {
 					isCatch = true
 				}
 			}
+			for _, c := range e.lexicals {
+				if c == fn {
+					isCatch = true
+				}
+			}
 			if isCatch {
 				continue
 			}
@@ -181,6 +191,7 @@ func (g *ScopeGen) block(e scopeEnv, ind string, taken ...string) string {
 			inner := env.with(fn, p1, p2)
 			inner.inFn = true
 			inner.fnBody = true
+			inner.lexicals = nil
 			inner.labels = nil
 			inner.catches = nil
 			inner.fnNames = nil
@@ -201,6 +212,7 @@ func (g *ScopeGen) block(e scopeEnv, ind string, taken ...string) string {
 			inner := env.with(self)
 			inner.inFn = true
 			inner.fnBody = true
+			inner.lexicals = nil
 			inner.labels = nil
 			fmt.Fprintf(&sb, "%s(function %s() {\n%s  p(\"self%d\", typeof %s);\n%s%s})();\n", ind, self, ind, g.id(), self, g.block(inner, ind+"  "), ind)
 		case 9:
@@ -209,6 +221,7 @@ func (g *ScopeGen) block(e scopeEnv, ind string, taken ...string) string {
 			inner := env.with(p1)
 			inner.inFn = true
 			inner.fnBody = true
+			inner.lexicals = nil
 			inner.labels = nil
 			fmt.Fprintf(&sb, "%s((%s) => {\n%s%s})(\"arrow%d\");\n", ind, p1, g.block(inner, ind+"  ", p1), ind, g.id())
 		case 10:
@@ -221,6 +234,7 @@ func (g *ScopeGen) block(e scopeEnv, ind string, taken ...string) string {
 			g.stat("scope:for-let")
 			v := g.name()
 			inner := env.with(v)
+			inner.lexicals = append(append([]string{}, env.lexicals...), v)
 			fmt.Fprintf(&sb, "%sfor (let %s = 0; %s < 2; %s++) {\n%s%s}\n", ind, v, v, v, g.block(inner, ind+"  "), ind)
 		case 12:
 			g.stat("scope:class")
@@ -232,6 +246,7 @@ func (g *ScopeGen) block(e scopeEnv, ind string, taken ...string) string {
 			inner := env.with(cn)
 			inner.inFn = true
 			inner.fnBody = true
+			inner.lexicals = nil
 			inner.labels = nil
 			inner.strict = true
 			fmt.Fprintf(&sb, "%sclass %s {\n%s  #%s = \"priv@%d\";\n%s  static #%ss = 1;\n%s  read() {\n%s%s    return this.#%s;\n%s  }\n%s}\n", ind, cn, ind, priv, g.id(), ind, priv, ind, g.block(inner, ind+"    "), ind, priv, ind, ind)
@@ -302,6 +317,7 @@ func (g *ScopeGen) block(e scopeEnv, ind string, taken ...string) string {
 			inner := env.with(p1, p2)
 			inner.inFn = true
 			inner.fnBody = true
+			inner.lexicals = nil
 			inner.labels = nil
 			fmt.Fprintf(&sb, "%s(function ({ k: %s }, [%s] = [%s]) {\n%s%s})({ k: \"dk%d\" });\n", ind, p1, p2, g.free(), g.block(inner, ind+"  ", p1, p2), ind, g.id())
 		}
